@@ -193,6 +193,15 @@ def prepare_evo_aspirate_dispense_parameters(
             # User-specified integers from 1-8 need to be converted to Tecan logic
             tip = int_to_tip(tip)
         tecan_tips.append(tip)
+    if Tip.Any in tecan_tips or len(set(tecan_tips)) != len(tecan_tips):
+        raise ValueError(f"Invalid tips: {tips}. Tips must be unique members of T1-T8.")
+    if len(set(wells_list)) != len(wells_list):
+        raise ValueError(f"Invalid wells: {wells_list}. Every well may be selected only once.")
+    # EVOware assigns the selected tips in ascending order to the selected wells in ascending order.
+    if [w for _, w in sorted(zip(tecan_tips, wells_list))] != sorted(wells_list):
+        raise ValueError(
+            f"Invalid wells/tips: Tips {tips} and wells {wells_list} must be given in the same (ascending) order."
+        )
 
     if arm is None:
         raise ValueError("Missing required paramter: arm")
@@ -274,10 +283,10 @@ def evo_aspirate(
 
     # prepare volume section (volume is converted to list in _prepare_evo_aspirate_dispense_parameters)
     tip_volumes = ""
+    tip_values = [tecantip.value for tecantip in tips]
     for tipv in [1, 2, 4, 8, 16, 32, 64, 128]:
-        if tipv in [tecantip.value for tecantip in tips]:
-            tip_volumes += f'"{volume[0]}",'
-            volume.pop(0)
+        if tipv in tip_values:
+            tip_volumes += f'"{volume[tip_values.index(tipv)]}",'
         else:
             tip_volumes += "0,"
 
@@ -351,10 +360,10 @@ def evo_dispense(
 
     # prepare volume section (volume is converted to list in _prepare_evo_aspirate_dispense_parameters)
     tip_volumes = ""
+    tip_values = [tecantip.value for tecantip in tips]
     for tipv in [1, 2, 4, 8, 16, 32, 64, 128]:
-        if tipv in [tecantip.value for tecantip in tips]:
-            tip_volumes += f'"{volume[0]}",'
-            volume.pop(0)
+        if tipv in tip_values:
+            tip_volumes += f'"{volume[tip_values.index(tipv)]}",'
         else:
             tip_volumes += "0,"
 
@@ -451,6 +460,10 @@ def prepare_evo_wash_parameters(
             # User-specified integers from 1-8 need to be converted to Tecan logic
             tip = int_to_tip(tip)
         tecan_tips.append(tip)
+    if not all(isinstance(tip, Tip) for tip in tecan_tips):
+        raise ValueError(f"Invalid type of tips: {tips}. Has to be int or Tip.")
+    if Tip.Any in tecan_tips or len(set(tecan_tips)) != len(tecan_tips):
+        raise ValueError(f"Invalid tips: {tips}. Tips must be unique members of T1-T8.")
 
     if waste_location is None:
         raise ValueError("Missing required parameter: waste_location")
